@@ -101,7 +101,7 @@ Step(e) ==
          rowsOk  == ~isQ \/ AcceptRes(e.a.q, EvalQ(e.a.q, DbOf(st), <<>>), e.rows)
          \* repeated execution (harness option --twice): the second answer must be acceptable too (C04)
          rptOk   == ~isQ \/ ("rows2" \notin DOMAIN e) \/ (e.out2 = e.out /\ AcceptRes(e.a.q, EvalQ(e.a.q, DbOf(st), <<>>), e.rows2))
-         cntOk   == ~(e.a.a \in {"del", "upd", "ins", "inssel"} /\ exp.out = "ok" /\ outOk) \/ e.cnt = exp.cnt
+         cntOk   == ~(e.a.a \in {"del", "upd", "ins", "inssel"} /\ exp.out = "ok" /\ outOk) \/ e.cnt = exp.cnt \/ exp.cnt < 0
          idxOk   == ~(outOk /\ stOk) \/ IndexInv(exp.st, o)
          \* a reload reproduces column types and nullability exactly as they were observed before it
          typOk   == ~(e.a.a = "saveload" /\ outOk /\ exp.out = "ok") \/ ("CT" \notin DOMAIN o) \/ ("CT" \notin DOMAIN po) \/ o.CT = po.CT
